@@ -116,6 +116,10 @@ def gen(ctx):
                                           ['advance', 0], ['advance', 0], ['advance', 0]], probe=[7]))
     cases.append(dict(n=N, mode='r', acts=[['enter'], ['setmode', 'r+', N], ['grow', 1, N + 1], ['write', N, -6], ['read', N],
                                           ['start'] + PARAMS[1], ['advance', 0], ['exit'], ['write', 3, -1], ['close', 0]], probe=[3, N]))
+    # a read-only handle opened for WRITING by a context; the length changes inside it and an element is written
+    cases.append(dict(n=N, mode='r', acts=[['enterrw'], ['write', 4, -9], ['shrink', 2, N - 2], ['write', 5, -3], ['read', 5],
+                                          ['start'] + PARAMS[0], ['advance', 0], ['shrink', 1, N - 3], ['write', N - 4, -4], ['read', N - 4],
+                                          ['exit'], ['advance', 0], ['close', 0]], probe=[4, 5, N - 4]))
     # an array without elements: every generator raises at its first next(), every element access raises
     for _ in range(6 if ctx.quick else 60):
         acts, depth, ng = [], 0, 0
